@@ -25,6 +25,12 @@ inline bool operator<(const rational_class &a, const rational_class &b) { return
 inline bool operator<(const rational_class &a, const integer_class &b) { return a.rank < b.v; }
 inline integer_class get_num(const rational_class &q) { return q.num; }
 inline integer_class get_den(const rational_class &q) { return q.den; }
+/* GMP three-way comparisons (mpz_cmp, mpq_cmp, mpz_cmpabs): the documented contract is the SIGN of the result only —
+   "a positive value if a > b, zero if a = b, a negative value if a < b"; the magnitude is unspecified (mpq_cmp really returns limb counts) */
+inline int gmp_sign_only(int s) { int m = nondet_int(); __CPROVER_assume(m >= 1); return s == 0 ? 0 : (s < 0 ? -m : m); }
+inline int mp_cmp(const integer_class &a, const integer_class &b) { return gmp_sign_only(a.v < b.v ? -1 : (a.v > b.v ? 1 : 0)); }
+inline int mp_cmp(const rational_class &a, const rational_class &b) { return gmp_sign_only(a.rank < b.rank ? -1 : (a.rank > b.rank ? 1 : 0)); }
+inline int mp_cmpabs(const integer_class &a, const integer_class &b) { __int128 x = a.v < 0 ? -a.v : a.v, y = b.v < 0 ? -b.v : b.v; return gmp_sign_only(x < y ? -1 : (x > y ? 1 : 0)); }
 #define RANK_OK(x, y) (((x).rank == (y).rank) == ((x) == (y)))
 /* ---- stub: std::complex<double> (operator== is component-wise per the C++ standard) */
 struct cdouble {
